@@ -7,6 +7,7 @@ License: 3-clause BSD. (See the COPYRIGHT file)
 
 from __future__ import annotations
 
+import copy
 import os
 import re
 from typing import TYPE_CHECKING, Any, cast
@@ -545,7 +546,16 @@ class Configuration(_Configuration):
         # Add the changes prior to the reload to the neighbor to correct handling of deleted routes
         for neighbor in self.neighbors:
             if neighbor in self._previous_neighbors:
-                self.neighbors[neighbor].previous = self._previous_neighbors[neighbor]
+                previous = self._previous_neighbors[neighbor]
+                if previous.previous is not None:
+                    # the peer sets .previous back to None once it has sent the difference.  It is still there:
+                    # the reload which brought `previous` was never taken up (the peer is down, or this reload
+                    # came first), and the routes it was to withdraw are still to be withdrawn
+                    older = previous.previous
+                    previous = copy.copy(previous)
+                    previous.routes = previous.routes + older.routes
+                    previous.previous = None
+                self.neighbors[neighbor].previous = previous
 
         self._previous_neighbors = {}
         self._previous_processes = {}
